@@ -18,16 +18,24 @@ Lemma tie_lits_string : (LS 0, LS 1, LS 4, LS 5, LS 6) = (0, 4, 0, 32, 4)%nat.
 Proof. reflexivity. Qed.
 
 Ltac tie_child :=
-  change (LC 0) with 33%nat in *; change (LC 1) with 4%nat in *; change (LC 2) with 1%nat in *;
-  change (LC 3) with 2%nat in *; change (LC 4) with 2%nat in *; change (LC 7) with 32%nat in *;
-  change (LC 8) with 32%nat in *; change (LC 11) with 4%nat in *; change (LC 12) with 1%nat in *.
+  change (LC 0) with 33%nat; change (LC 1) with 4%nat; change (LC 2) with 1%nat;
+  change (LC 3) with 2%nat; change (LC 4) with 2%nat; change (LC 7) with 32%nat;
+  change (LC 8) with 32%nat; change (LC 11) with 4%nat; change (LC 12) with 1%nat.
+Ltac tie_child_in H :=
+  change (LC 0) with 33%nat in H; change (LC 1) with 4%nat in H; change (LC 2) with 1%nat in H;
+  change (LC 3) with 2%nat in H; change (LC 4) with 2%nat in H; change (LC 7) with 32%nat in H;
+  change (LC 8) with 32%nat in H; change (LC 11) with 4%nat in H; change (LC 12) with 1%nat in H.
 Ltac tie_master :=
-  change (LM 0) with 2%nat in *; change (LM 1) with 2%nat in *; change (LM 4) with 0%nat in *;
-  change (LM 5) with 0%nat in *; change (LM 6) with 0%nat in *; change (LM 7) with 0%nat in *;
-  change (LM 8) with 0%nat in *; change (LM 9) with 0%nat in *.
+  change (LM 0) with 2%nat; change (LM 1) with 2%nat; change (LM 4) with 0%nat;
+  change (LM 5) with 0%nat; change (LM 6) with 0%nat; change (LM 7) with 0%nat;
+  change (LM 8) with 0%nat; change (LM 9) with 0%nat.
+Ltac tie_master_in H :=
+  change (LM 0) with 2%nat in H; change (LM 1) with 2%nat in H; change (LM 4) with 0%nat in H;
+  change (LM 5) with 0%nat in H; change (LM 6) with 0%nat in H; change (LM 7) with 0%nat in H;
+  change (LM 8) with 0%nat in H; change (LM 9) with 0%nat in H.
 Ltac tie_string :=
-  change (LS 0) with 0%nat in *; change (LS 1) with 4%nat in *; change (LS 4) with 0%nat in *;
-  change (LS 5) with 32%nat in *; change (LS 6) with 4%nat in *.
+  change (LS 0) with 0%nat; change (LS 1) with 4%nat; change (LS 4) with 0%nat;
+  change (LS 5) with 32%nat; change (LS 6) with 4%nat.
 
 Lemma n_lt_2_256 : (Bip32Spec.n < 2 ^ 256)%Z.
 Proof. reflexivity. Qed.
@@ -51,6 +59,17 @@ Proof. apply be_bytes_length. Qed.
 Lemma ser32_length i : length (ser32 i) = 4%nat.
 Proof. apply be_bytes_length. Qed.
 
+Lemma hardened_N i : (0 <= i)%Z -> (2 ^ 31 <=? Z.to_N i) = hardened i.
+Proof. intros Hi. unfold hardened. destruct (N.leb_spec (2 ^ 31) (Z.to_N i)), (Z.leb_spec (2 ^ 31) i); auto; lia. Qed.
+
+Lemma out_of_range_spec b :
+  out_of_range (set_bytes b) = (Bip32Spec.n <=? parse256 b)%Z || (parse256 b =? 0)%Z.
+Proof.
+  unfold out_of_range, parse256, set_bytes. rewrite <- tie_nN.
+  destruct (N.leb_spec secp_nN (be_value b 0)), (Z.leb_spec (Z.of_N secp_nN) (Z.of_N (be_value b 0))),
+           (N.eqb_spec (be_value b 0) 0), (Z.eqb_spec (Z.of_N (be_value b 0)) 0); auto; lia.
+Qed.
+
 Section Conform.
 Variable point : Type.
 Variable hmac512 : list N -> list N -> list N.
@@ -64,12 +83,16 @@ Variable dsha : list N -> list N.
 
 (* what the proofs need of the dependencies *)
 Hypothesis H_hmac_len : forall k d, length (hmac512 k d) = 64%nat.
+Hypothesis H_hmac_bytes : forall k d, Bytes (hmac512 k d).
+Hypothesis H_h160_len : forall m, length (hash160 m) = 20%nat.
 Hypothesis H_ser_len : forall P, length (ser_point P) = 33%nat.
 Hypothesis H_parse_ser : forall P, pzero P = false -> parse_point (ser_point P) = Ok P.
 Hypothesis H_mul_nonzero : forall a, (0 < a < Bip32Spec.n)%Z -> pzero (point_of_scalar a) = false.
 Hypothesis H_hom : forall a b, (0 <= a < Bip32Spec.n)%Z -> (0 <= b < Bip32Spec.n)%Z ->
   point_of_scalar ((a + b) mod Bip32Spec.n) = padd (point_of_scalar a) (point_of_scalar b).
 
+Ltac clear_vars := try clear dsha; try clear hash160; try clear parse_point; try clear ser_point; try clear pzero;
+  try clear padd; try clear point_of_scalar; try clear hmac512; try clear point.
 Local Notation child := (child point hmac512 point_of_scalar padd pzero ser_point parse_point hash160).
 Local Notation neuter := (neuter point point_of_scalar ser_point).
 Local Notation new_master := (new_master hmac512).
@@ -83,6 +106,15 @@ Local Notation child_priv_node := (child_priv_node point hmac512 point_of_scalar
 Local Notation child_pub_node := (child_pub_node point hmac512 point_of_scalar padd pzero ser_point hash160).
 Local Notation master_node := (master_node hmac512).
 Local Notation fingerprint := (fingerprint point ser_point hash160).
+Local Notation identifier := (identifier point ser_point hash160).
+Local Notation derive_priv := (derive_priv point hmac512 point_of_scalar ser_point hash160).
+Local Notation derive_pub := (derive_pub point hmac512 point_of_scalar padd pzero ser_point hash160).
+Local Notation derive_from_seed := (derive_from_seed point hmac512 point_of_scalar padd pzero ser_point parse_point hash160).
+Local Notation to_string := (to_string point point_of_scalar ser_point dsha).
+Local Notation payload := (payload point point_of_scalar ser_point).
+Local Notation address := (address point point_of_scalar ser_point hash160).
+Local Notation string_priv := (string_priv dsha).
+Local Notation string_pub := (string_pub point ser_point dsha).
 
 (* a specification node as a Go ExtendedKey *)
 Definition embed_priv (ver : list N) (nd : priv_node) : xkey :=
@@ -93,7 +125,8 @@ Definition embed_res {A} (f : A -> xkey) (o : option A) : res xkey :=
   match o with Some a => Ok (f a) | None => Err E_invalid_child end.
 
 Lemma half64 k d : (length (hmac512 k d) / 2 = 32)%nat.
-Proof. rewrite H_hmac_len. reflexivity. Qed.
+Proof using H_hmac_len.
+  clear H_hmac_bytes H_h160_len H_ser_len H_parse_ser H_mul_nonzero H_hom; clear_vars. rewrite H_hmac_len. reflexivity. Qed.
 
 (* ---------- Child on a private key with a 32-byte scalar, in closed form ---------- *)
 Lemma child_priv_eq k i :
@@ -105,7 +138,8 @@ Lemma child_priv_eq k i :
     if out_of_range il then Err E_invalid_child else
     Ok (mk_xkey (xk_version k) (be_bytes 32 ((il + set_bytes (xk_key k)) mod secp_nN)) (skipn 32 I)
                 (firstn 4 (hash160 (ser_point P))) (xk_depth k + 1) i true).
-Proof.
+Proof using H_hmac_len H_ser_len.
+  clear H_hmac_bytes H_h160_len H_parse_ser H_mul_nonzero H_hom; clear_vars.
   intros Hp Hd Hl. unfold HD.child. tie_child. rewrite const_maxUint8, const_HardenedKeyStart.
   unfold HD.pubkey_bytes. rewrite Hp. cbv zeta.
   destruct (N.eqb_spec (xk_depth k) 255) as [|_]; [contradiction|].
@@ -122,24 +156,14 @@ Proof.
     assert ((set_bytes (firstn 32 I) + set_bytes (xk_key k)) mod secp_nN < secp_nN) by (apply N.mod_lt; lia). lia.
 Qed.
 
-Lemma hardened_N i : (0 <= i)%Z -> (2 ^ 31 <=? Z.to_N i) = hardened i.
-Proof. intros Hi. unfold hardened. destruct (N.leb_spec (2 ^ 31) (Z.to_N i)), (Z.leb_spec (2 ^ 31) i); auto; lia. Qed.
-
-Lemma out_of_range_spec b :
-  out_of_range (set_bytes b) = (Bip32Spec.n <=? parse256 b)%Z || (parse256 b =? 0)%Z.
-Proof.
-  unfold out_of_range, parse256, set_bytes. rewrite <- tie_nN.
-  destruct (N.leb_spec secp_nN (be_value b 0)), (Z.leb_spec (Z.of_N secp_nN) (Z.of_N (be_value b 0))),
-           (N.eqb_spec (be_value b 0) 0), (Z.eqb_spec (Z.of_N (be_value b 0)) 0); auto; lia.
-Qed.
-
 Theorem child_priv_conforms ver nd i :
   (0 < s_k nd < Bip32Spec.n)%Z -> (0 <= s_depth nd < 255)%Z -> (0 <= i < 2 ^ 32)%Z ->
   let il := parse256 (IL (I_priv (s_k nd) (s_c nd) i)) in
   il <> 0%Z ->
   ((il < Bip32Spec.n)%Z -> ((il + s_k nd) mod Bip32Spec.n <> 0)%Z) ->
   child (embed_priv ver nd) (Z.to_N i) = embed_res (embed_priv ver) (child_priv_node nd i).
-Proof.
+Proof using H_hmac_len H_ser_len.
+  clear H_hmac_bytes H_h160_len H_parse_ser H_mul_nonzero H_hom; clear_vars.
   intros Hk Hd Hi il Hil0 Hki.
   rewrite child_priv_eq; cbn [embed_priv xk_depth xk_priv xk_key xk_chain xk_version xk_fp xk_childnum];
     [ | reflexivity | lia | apply ser256_length ].
@@ -156,8 +180,8 @@ Proof.
     specialize (Hki Hlt). destruct (Z.eqb_spec ((il + s_k nd) mod Bip32Spec.n) 0) as [|_]; [contradiction|].
     cbn [orb embed_res embed_priv s_k s_c s_depth s_fp s_index]. f_equal. unfold set_bytes, embed_priv.
     cbn [s_k s_c s_depth s_fp s_index]. f_equal.
-    + unfold ser256. f_equal. unfold il, parse256 in *. fold (IL (I_priv (s_k nd) (s_c nd) i)).
-      set (v := be_value _ 0) in *. pose proof tie_nN.
+    + unfold ser256. f_equal. unfold il, parse256 in Hil0, Hki, Hlt |- *. fold (IL (I_priv (s_k nd) (s_c nd) i)) in Hil0, Hki, Hlt |- *.
+      set (v := be_value _ 0) in Hil0, Hki, Hlt |- *. pose proof tie_nN.
       apply N2Z.inj. rewrite N2Z.inj_mod, N2Z.inj_add, !Z2N.id; try lia.
       rewrite H. reflexivity.
     + lia.
@@ -173,7 +197,8 @@ Lemma child_pub_eq k K i :
     if pzero (point_of_scalar (Z.of_N il)) then Err E_invalid_child else
     Ok (mk_xkey (xk_version k) (ser_point (padd (point_of_scalar (Z.of_N il)) K)) (skipn 32 I)
                 (firstn 4 (hash160 (ser_point K))) (xk_depth k + 1) i false).
-Proof.
+Proof using H_hmac_len H_ser_len H_parse_ser.
+  clear H_hmac_bytes H_h160_len H_mul_nonzero H_hom; clear_vars.
   intros Hp Hd Hk HK Hi. unfold HD.child. tie_child. rewrite const_maxUint8, const_HardenedKeyStart.
   unfold HD.pubkey_bytes. rewrite Hp, Hk. cbv zeta.
   destruct (N.eqb_spec (xk_depth k) 255) as [|_]; [contradiction|].
@@ -192,10 +217,12 @@ Definition embed_pub_res (ver : list N) (r : option (pub_node point)) : res xkey
 Theorem child_pub_conforms ver nd i :
   pzero (p_K nd) = false -> (0 <= p_depth nd < 255)%Z -> (0 <= i < 2 ^ 31)%Z ->
   let il := parse256 (IL (I_pub (p_K nd) (p_c nd) i)) in
-  il <> 0%Z ->
+  il <> 0%Z ->                                                                   (* the code also refuses IL = 0 *)
+  ((il < Bip32Spec.n)%Z -> pzero (padd (point_of_scalar il) (p_K nd)) = false) -> (* the code does not test K_i = infinity *)
   child (embed_pub ver nd) (Z.to_N i) = embed_pub_res ver (child_pub_node nd i).
-Proof.
-  intros HK Hd Hi il Hil0.
+Proof using H_hmac_len H_ser_len H_parse_ser H_mul_nonzero.
+  clear H_hmac_bytes H_h160_len H_hom; clear_vars.
+  intros HK Hd Hi il Hil0 Hinf.
   rewrite (child_pub_eq _ (p_K nd)); cbn [embed_pub xk_depth xk_priv xk_key xk_chain xk_version xk_fp xk_childnum];
     [ | reflexivity | lia | reflexivity | exact HK | lia ].
   cbv zeta.
@@ -210,8 +237,293 @@ Proof.
   - destruct (Z.eqb_spec il 0) as [|_]; [contradiction|].
     assert (Hpos : (0 <= il)%Z) by (unfold il, parse256; lia).
     rewrite H_mul_nonzero by lia.
-    destruct (pzero (padd (point_of_scalar il) (p_K nd))) eqn:Einf; cbn [embed_pub_res].
-    2:{ unfold embed_pub. cbn [p_K p_c p_depth p_fp p_index]. f_equal. f_equal. lia. }
-    Show.
-Abort.
+    rewrite (Hinf Hlt). cbn [embed_pub_res].
+    unfold embed_pub. cbn [p_K p_c p_depth p_fp p_index]. f_equal. f_equal. lia.
+Qed.
+
+(* ---------- Neuter and Child commute on non-hardened indices ---------- *)
+Lemma scalar_of_be_bytes32 v : v < secp_nN -> scalar_of (be_bytes 32 v) = Z.of_N v.
+Proof using.
+  clear H_hmac_len H_hmac_bytes H_h160_len H_ser_len H_parse_ser H_mul_nonzero H_hom; clear_vars.
+  intros Hv. unfold scalar_of, set_bytes. rewrite be_value_be_bytes; [reflexivity|].
+  pose proof secp_n_bound. lia.
+Qed.
+
+Theorem neuter_commutes k i v :
+  xk_priv k = true -> length (xk_key k) = 32%nat -> 0 < set_bytes (xk_key k) < secp_nN ->
+  i < 2 ^ 31 -> priv_to_pub_id (xk_version k) = Ok v ->
+  (do kn <- neuter k ;; child kn i) = (do c <- child k i ;; neuter c).
+Proof using H_hmac_len H_ser_len H_parse_ser H_mul_nonzero H_hom.
+  clear H_hmac_bytes H_h160_len; clear_vars.
+  intros Hp Hl Hk Hi Hv.
+  set (P := point_of_scalar (scalar_of (xk_key k))).
+  assert (HP : pzero P = false).
+  { apply H_mul_nonzero. unfold scalar_of. rewrite <- tie_nN. lia. }
+  unfold HD.neuter at 1. rewrite Hp, Hv. cbn [negb rbind]. unfold HD.pubkey_bytes. rewrite Hp. fold P.
+  destruct (N.eq_dec (xk_depth k) 255) as [Hd|Hd].
+  { rewrite !guard_depth by (cbn [xk_depth]; exact Hd). reflexivity. }
+  rewrite (child_pub_eq _ P) by (cbn [xk_priv xk_depth xk_key]; auto).
+  rewrite child_priv_eq by assumption.
+  cbn [xk_chain xk_version xk_depth]. cbv zeta. fold P.
+  destruct (N.leb_spec (2 ^ 31) i) as [|_]; [lia|].
+  set (I := hmac512 (xk_chain k) (ser_point P ++ be_bytes 4 i)).
+  destruct (out_of_range (set_bytes (firstn 32 I))) eqn:Eo; [reflexivity|].
+  apply out_of_range_false in Eo. set (il := set_bytes (firstn 32 I)) in Eo |- *.
+  rewrite H_mul_nonzero by (rewrite <- tie_nN; lia).
+  cbn [rbind]. unfold HD.neuter. cbn [xk_priv xk_version xk_chain xk_fp xk_depth xk_childnum negb].
+  rewrite Hv. cbn [rbind]. unfold HD.pubkey_bytes. cbn [xk_priv xk_key].
+  assert (Hm : (il + set_bytes (xk_key k)) mod secp_nN < secp_nN) by (apply N.mod_lt; lia).
+  rewrite scalar_of_be_bytes32 by exact Hm.
+  rewrite N2Z.inj_mod, N2Z.inj_add, tie_nN.
+  rewrite H_hom by (rewrite <- tie_nN; lia).
+  reflexivity.
+Qed.
+
+(* ---------- NewMaster ---------- *)
+Theorem master_conforms seed nt :
+  seed_length_ok seed ->
+  new_master seed nt =
+    match master_node seed with Some nd => Ok (embed_priv (hd_priv_id nt) nd) | None => Err E_unusable end.
+Proof using H_hmac_len H_hmac_bytes.
+  clear H_h160_len H_ser_len H_parse_ser H_mul_nonzero H_hom; clear_vars.
+  intros [Hlo Hhi]. unfold HD.new_master. tie_master. destruct const_seed_bounds as [-> ->].
+  destruct (Nat.ltb_spec (length seed) 16); [lia|]. destruct (Nat.ltb_spec 64 (length seed)); [lia|].
+  cbn [orb]. cbv zeta. rewrite tie_masterKey.
+  set (I := hmac512 bitcoin_seed seed).
+  assert (HI : (length I / 2 = 32)%nat) by apply half64. rewrite HI.
+  unfold Bip32Spec.master_node, Bip32Spec.master. fold I. fold (IL I). rewrite out_of_range_spec.
+  rewrite orb_comm.
+  destruct ((parse256 (IL I) =? 0)%Z || (Bip32Spec.n <=? parse256 (IL I))%Z) eqn:E; [reflexivity|].
+  unfold embed_priv. cbn [s_k s_c s_depth s_fp s_index]. f_equal. f_equal.
+  unfold ser256, parse256. rewrite N2Z.id. symmetry. apply be_bytes_unique.
+  - apply Bytes_firstn. apply H_hmac_bytes.
+  - unfold IL. rewrite firstn_length. unfold I. rewrite H_hmac_len. reflexivity.
+Qed.
+
+(* ---------- whole paths ---------- *)
+(* the two places where the code's validity test differs from the BIP's (DESIGN C04): excluded along the path *)
+Fixpoint nogap_priv (nd : priv_node) (path : list Z) : Prop :=
+  match path with
+  | [] => True
+  | i :: t =>
+      let il := parse256 (IL (I_priv (s_k nd) (s_c nd) i)) in
+      il <> 0%Z /\ ((il < Bip32Spec.n)%Z -> ((il + s_k nd) mod Bip32Spec.n <> 0)%Z) /\
+      match child_priv_node nd i with Some c => nogap_priv c t | None => True end
+  end.
+
+Fixpoint nogap_pub (nd : pub_node point) (path : list Z) : Prop :=
+  match path with
+  | [] => True
+  | i :: t =>
+      let il := parse256 (IL (I_pub (p_K nd) (p_c nd) i)) in
+      il <> 0%Z /\ ((il < Bip32Spec.n)%Z -> pzero (padd (point_of_scalar il) (p_K nd)) = false) /\
+      match child_pub_node nd i with Some c => nogap_pub c t | None => True end
+  end.
+
+Definition index_ok (i : Z) : Prop := (0 <= i < 2 ^ 32)%Z.
+Definition normal_index (i : Z) : Prop := (0 <= i < 2 ^ 31)%Z.
+
+Lemma child_priv_node_range nd i c :
+  child_priv_node nd i = Some c -> (0 < s_k c < Bip32Spec.n)%Z /\ s_depth c = (s_depth nd + 1)%Z.
+Proof using.
+  clear H_hmac_len H_hmac_bytes H_h160_len H_ser_len H_parse_ser H_mul_nonzero H_hom; clear_vars.
+  unfold Bip32Spec.child_priv_node, Bip32Spec.CKDpriv.
+  set (I := I_priv _ _ _). set (ki := ((parse256 (IL I) + s_k nd) mod Bip32Spec.n)%Z).
+  destruct (Z.leb_spec Bip32Spec.n (parse256 (IL I))); cbn [orb]; [discriminate|].
+  destruct (Z.eqb_spec ki 0); [discriminate|]. intros Hs. injection Hs as <-. cbn [s_k s_depth].
+  assert (0 <= ki < Bip32Spec.n)%Z by (apply Z.mod_pos_bound; reflexivity). split; [lia | reflexivity].
+Qed.
+
+Theorem path_conforms ver path : forall nd,
+  (0 < s_k nd < Bip32Spec.n)%Z -> (0 <= s_depth nd)%Z -> (s_depth nd + Z.of_nat (length path) <= 255)%Z ->
+  Forall index_ok path -> nogap_priv nd path ->
+  derive (embed_priv ver nd) (map Z.to_N path) = embed_res (embed_priv ver) (derive_priv nd path).
+Proof using H_hmac_len H_ser_len.
+  clear H_hmac_bytes H_h160_len H_parse_ser H_mul_nonzero H_hom; clear_vars.
+  induction path as [|i t IH]; intros nd Hk Hd0 Hd Hidx Hgap.
+  - reflexivity.
+  - inversion Hidx as [|? ? Hi Ht]; subst. destruct Hgap as [G1 [G2 G3]].
+    cbn [map HD.derive Bip32Spec.derive_priv length] in Hd, G3 |- *.
+    rewrite child_priv_conforms by (auto; lia).
+    destruct (child_priv_node nd i) as [c|] eqn:Ec; cbn [embed_res rbind]; [|reflexivity].
+    destruct (child_priv_node_range _ _ _ Ec) as [Hkc Hdc].
+    apply IH; auto; lia.
+Qed.
+
+Lemma child_pub_node_range nd i c :
+  child_pub_node nd i = Some c -> pzero (p_K c) = false /\ p_depth c = (p_depth nd + 1)%Z.
+Proof using.
+  clear H_hmac_len H_hmac_bytes H_h160_len H_ser_len H_parse_ser H_mul_nonzero H_hom; clear_vars.
+  unfold Bip32Spec.child_pub_node, Bip32Spec.CKDpub. destruct (hardened i); [discriminate|].
+  set (I := I_pub _ _ _).
+  destruct (Z.leb_spec Bip32Spec.n (parse256 (IL I))); cbn [orb]; [discriminate|].
+  destruct (pzero _) eqn:E; [discriminate|]. intros Hs. injection Hs as <-. cbn [p_K p_depth]. auto.
+Qed.
+
+Theorem path_conforms_pub ver path : forall nd,
+  pzero (p_K nd) = false -> (0 <= p_depth nd)%Z -> (p_depth nd + Z.of_nat (length path) <= 255)%Z ->
+  Forall normal_index path -> nogap_pub nd path ->
+  derive (embed_pub ver nd) (map Z.to_N path) = embed_pub_res ver (derive_pub nd path).
+Proof using H_hmac_len H_ser_len H_parse_ser H_mul_nonzero.
+  clear H_hmac_bytes H_h160_len H_hom; clear_vars.
+  induction path as [|i t IH]; intros nd HK Hd0 Hd Hidx Hgap.
+  - reflexivity.
+  - inversion Hidx as [|? ? Hi Ht]; subst. destruct Hgap as [G1 [G2 G3]].
+    cbn [map HD.derive Bip32Spec.derive_pub length] in Hd, G3 |- *.
+    rewrite child_pub_conforms by (auto; lia).
+    destruct (child_pub_node nd i) as [c|] eqn:Ec; cbn [embed_pub_res rbind]; [|reflexivity].
+    destruct (child_pub_node_range _ _ _ Ec) as [HKc Hdc].
+    apply IH; auto; lia.
+Qed.
+
+(* from any legal seed *)
+Theorem seed_path_conforms seed nt path :
+  seed_length_ok seed -> (length path <= 255)%nat -> Forall index_ok path ->
+  match master_node seed with Some m => nogap_priv m path | None => True end ->
+  derive_from_seed seed nt (map Z.to_N path) =
+    match master_node seed with
+    | Some m => embed_res (embed_priv (hd_priv_id nt)) (derive_priv m path)
+    | None => Err E_unusable
+    end.
+Proof using H_hmac_len H_hmac_bytes H_ser_len.
+  clear H_h160_len H_parse_ser H_mul_nonzero H_hom; clear_vars.
+  intros Hs Hl Hidx Hgap. unfold HD.derive_from_seed. rewrite master_conforms by exact Hs.
+  destruct (master_node seed) as [m|] eqn:Em; cbn [rbind]; [|reflexivity].
+  unfold Bip32Spec.master_node, Bip32Spec.master in Em.
+  set (I := hmac512 bitcoin_seed seed) in Em |- *.
+  destruct (Z.eqb_spec (parse256 (IL I)) 0) as [|Hne]; cbn [orb] in Em; [discriminate|].
+  destruct (Z.leb_spec Bip32Spec.n (parse256 (IL I))) as [|Hlt]; [discriminate|].
+  injection Em as <-.
+  apply path_conforms; cbn [s_k s_depth]; auto; try lia.
+  unfold parse256 in Hne, Hlt |- *. lia.
+Qed.
+
+(* ---------- what a node's embedding prints: String, Address, Neuter ---------- *)
+Lemma string_priv_conforms ver nd :
+  to_string (embed_priv ver nd) = string_priv ver nd.
+Proof using.
+  clear H_hmac_len H_hmac_bytes H_h160_len H_ser_len H_parse_ser H_mul_nonzero H_hom; clear_vars.
+  unfold HD.to_string, HD.payload, HD.cks4, embed_priv. tie_string.
+  cbn [xk_key xk_priv xk_version xk_depth xk_fp xk_childnum xk_chain].
+  rewrite ser256_length. cbn [Nat.eqb].
+  rewrite padded_append_exact by apply ser256_length.
+  reflexivity.
+Qed.
+
+Lemma string_pub_conforms ver nd :
+  to_string (embed_pub ver nd) = string_pub ver nd.
+Proof using H_ser_len.
+  clear H_hmac_len H_hmac_bytes H_h160_len H_parse_ser H_mul_nonzero H_hom; clear_vars.
+  unfold HD.to_string, HD.payload, HD.cks4, HD.pubkey_bytes, embed_pub. tie_string.
+  cbn [xk_key xk_priv xk_version xk_depth xk_fp xk_childnum xk_chain].
+  rewrite H_ser_len. cbn [Nat.eqb]. reflexivity.
+Qed.
+
+Lemma address_priv_conforms ver nd :
+  (0 <= s_k nd < Bip32Spec.n)%Z -> address (embed_priv ver nd) = Ok (identifier (point_of_scalar (s_k nd))).
+Proof using H_h160_len.
+  clear H_hmac_len H_hmac_bytes H_ser_len H_parse_ser H_mul_nonzero H_hom; clear_vars.
+  intros Hk. unfold HD.address, HD.pubkey_bytes, embed_priv. cbn [xk_key xk_priv].
+  rewrite scalar_of_ser256 by exact Hk. rewrite H_h160_len. reflexivity.
+Qed.
+
+Lemma address_pub_conforms ver nd : address (embed_pub ver nd) = Ok (identifier (p_K nd)).
+Proof using H_h160_len.
+  clear H_hmac_len H_hmac_bytes H_ser_len H_parse_ser H_mul_nonzero H_hom; clear_vars. unfold HD.address, HD.pubkey_bytes, embed_pub. cbn [xk_key xk_priv]. rewrite H_h160_len. reflexivity. Qed.
+
+Lemma neuter_conforms ver pubver nd :
+  (0 <= s_k nd < Bip32Spec.n)%Z -> priv_to_pub_id ver = Ok pubver ->
+  neuter (embed_priv ver nd) = Ok (embed_pub pubver (neuter_node point point_of_scalar nd)).
+Proof using.
+  clear H_hmac_len H_hmac_bytes H_h160_len H_ser_len H_parse_ser H_mul_nonzero H_hom; clear_vars.
+  intros Hk Hv. unfold HD.neuter, HD.pubkey_bytes, embed_priv, embed_pub, neuter_node.
+  cbn [xk_key xk_priv xk_version xk_depth xk_fp xk_childnum xk_chain negb p_K p_c p_depth p_fp p_index].
+  rewrite Hv. cbn [rbind]. rewrite scalar_of_ser256 by exact Hk. reflexivity.
+Qed.
+
+(* every network's private id is registered with its public id *)
+Lemma registered_ids : forallb (fun nt => match priv_to_pub_id (hd_priv_id nt) with
+                                         | Ok p => list_eqb p (hd_pub_id nt) | _ => false end) all_nets = true.
+Proof using.
+  clear H_hmac_len H_hmac_bytes H_h160_len H_ser_len H_parse_ser H_mul_nonzero H_hom; clear_vars. reflexivity. Qed.
+
+Lemma priv_to_pub_id_net nt : In nt all_nets -> priv_to_pub_id (hd_priv_id nt) = Ok (hd_pub_id nt).
+Proof using.
+  clear H_hmac_len H_hmac_bytes H_h160_len H_ser_len H_parse_ser H_mul_nonzero H_hom; clear_vars.
+  intros Hin. pose proof registered_ids as H. rewrite forallb_forall in H. specialize (H nt Hin).
+  destruct (priv_to_pub_id (hd_priv_id nt)) as [p| |]; try discriminate. apply list_eqb_eq in H. congruence.
+Qed.
+
+(* ---------- key length on everything reachable ---------- *)
+Lemma child_key_length k i c :
+  child k i = Ok c -> xk_priv c = xk_priv k /\ length (xk_key c) = if xk_priv k then 32%nat else 33%nat.
+Proof using H_ser_len.
+  clear H_hmac_len H_hmac_bytes H_h160_len H_parse_ser H_mul_nonzero H_hom; clear_vars.
+  unfold HD.child. tie_child. cbv zeta.
+  destruct (xk_depth k =? maxUint8); [discriminate|].
+  destruct (negb (xk_priv k) && (HardenedKeyStart <=? i)); [discriminate|].
+  set (ilr := hmac512 _ _).
+  destruct (out_of_range (set_bytes (firstn (length ilr / 2) ilr))); [discriminate|].
+  destruct (xk_priv k) eqn:Hp.
+  - cbn [rbind]. intros H. injection H as <-. cbn [xk_priv xk_key]. split; [reflexivity|].
+    rewrite pad_if_short; [apply be_bytes_length|].
+    pose proof secp_n_bound. pose proof secp_n_pos.
+    match goal with |- ?a mod _ < _ => assert (a mod secp_nN < secp_nN) by (apply N.mod_lt; lia) end. lia.
+  - destruct (pzero _); [discriminate|].
+    destruct (parse_point (xk_key k)) as [K| |]; cbn [rbind]; try discriminate.
+    intros H. injection H as <-. cbn [xk_priv xk_key]. split; [reflexivity | apply H_ser_len].
+Qed.
+
+Inductive reachable : xkey -> Prop :=
+| reach_master seed nt k : new_master seed nt = Ok k -> reachable k
+| reach_child k i c : reachable k -> child k i = Ok c -> reachable c
+| reach_neuter k c : reachable k -> neuter k = Ok c -> reachable c.
+
+Theorem key_length_invariant k :
+  reachable k -> length (xk_key k) = if xk_priv k then 32%nat else 33%nat.
+Proof using H_hmac_len H_ser_len.
+  clear H_hmac_bytes H_h160_len H_parse_ser H_mul_nonzero H_hom; clear_vars.
+  induction 1 as [seed nt k Hm | k i c Hr IH Hc | k c Hr IH Hn].
+  - unfold HD.new_master in Hm. tie_master_in Hm. cbv zeta in Hm.
+    destruct (_ || _)%bool in Hm; [discriminate|].
+    destruct (out_of_range _) in Hm; [discriminate|]. injection Hm as <-. cbn [xk_priv xk_key].
+    rewrite firstn_length, H_hmac_len. reflexivity.
+  - destruct (child_key_length _ _ _ Hc) as [Ep El]. rewrite Ep. exact El.
+  - unfold HD.neuter in Hn. destruct (xk_priv k) eqn:Hp; cbn [negb] in Hn.
+    + destruct (priv_to_pub_id (xk_version k)); cbn [rbind] in Hn; try discriminate.
+      injection Hn as <-. cbn [xk_priv xk_key]. unfold HD.pubkey_bytes. rewrite Hp. apply H_ser_len.
+    + injection Hn as <-. rewrite Hp. exact IH.
+Qed.
 End Conform.
+
+(* ---------- the two gaps between the code's validity test and the BIP's, exhibited with artificial oracles ----------
+   (a real input would need an HMAC-SHA512 output whose left half is 0, resp. n - k_par: a preimage problem) *)
+Definition gap_point_of (a : Z) : Z := (a mod Bip32Spec.n)%Z.          (* the group Z_n itself *)
+Definition gap_padd (a b : Z) : Z := ((a + b) mod Bip32Spec.n)%Z.
+Definition gap_pzero (a : Z) : bool := (a =? 0)%Z.
+Definition gap_ser (a : Z) : list N := 2 :: be_bytes 32 (Z.to_N a).
+Definition gap_parse (b : list N) : res Z := Err E_pubkey.
+Definition gap_h160 (m : list N) : list N := repeat 0 20.
+Definition gap_node : priv_node := mk_priv 1 (repeat 7 32) 0 [0;0;0;0] 0.
+
+(* (b) IL = n - k_par: the code returns the all-zero key, the BIP marks the child invalid *)
+Theorem child_zero_gap :
+  exists hmac : list N -> list N -> list N,
+    HD.child Z hmac gap_point_of gap_padd gap_pzero gap_ser gap_parse gap_h160 (embed_priv [4;136;173;228] gap_node) 0
+      = Ok (mk_xkey [4;136;173;228] (repeat 0 32) (repeat 9 32) (repeat 0 4) 1 0 true) /\
+    child_priv_node Z hmac gap_point_of gap_ser gap_h160 gap_node 0 = None.
+Proof.
+  exists (fun _ _ => be_bytes 32 (Z.to_N (Bip32Spec.n - 1)) ++ repeat 9 32).
+  split; vm_compute; reflexivity.
+Qed.
+
+(* (a) IL = 0: the code refuses the index, the BIP accepts it (k_i = k_par) *)
+Theorem child_ilzero_gap :
+  exists hmac : list N -> list N -> list N,
+    HD.child Z hmac gap_point_of gap_padd gap_pzero gap_ser gap_parse gap_h160 (embed_priv [4;136;173;228] gap_node) 0
+      = Err E_invalid_child /\
+    child_priv_node Z hmac gap_point_of gap_ser gap_h160 gap_node 0 <> None.
+Proof.
+  exists (fun _ _ => repeat 0 32 ++ repeat 9 32).
+  split; vm_compute; [reflexivity | discriminate].
+Qed.
